@@ -9,8 +9,8 @@
 // looked up through the real index and compared with a multi-version model of
 // what was stored (oracle.go); the number of discards is read from the index's
 // own Prometheus collectors. Two engines: generated adversarial histories
-// (random.go part of this file) and an exhaustive small-scope enumeration of
-// all operation sequences, deduplicated by table content (exhaustive.go).
+// (this file) and an exhaustive small-scope enumeration of all operation
+// sequences, deduplicated by table content (exhaustive.go).
 package main
 
 import (
@@ -35,25 +35,29 @@ func main() {
 		Workers:     8,
 		CaseTimeout: 10 * time.Minute,
 		Floors: map[string]int64{
-			"puts":                       60000,
-			"releases":                   5000,
-			"pushes":                     6000,
-			"puts_displacing":            8000,
-			"puts_displacing_chain":      1500,
-			"discards_counted":           6000,
-			"put_too_many_attempts":      2000,
-			"put_too_many_iterations":    600,
-			"fallbacks_to_older":         20,
-			"fallbacks_to_nothing":       1500,
-			"stored_entry_discarded":     600,
-			"entries_removed_by_release": 4000,
-			"entries_kept_by_release":    4000,
-			"puts_older_than_present":    4000,
-			"puts_shared_location":       3000,
-			"lookups_probing_further":    60000,
-			"cases_device":               200,
-			"cases_memory":               200,
-			"exhaustive_transitions":     20000,
+			// about 5x below what the quick tier observes at seed 1
+			"puts":                       150000,
+			"releases":                   15000,
+			"pushes":                     15000,
+			"puts_displacing":            10000,
+			"puts_displacing_chain":      2000,
+			"discards_counted":           25000,
+			"put_too_many_attempts":      15000,
+			"put_too_many_iterations":    7000,
+			"fallbacks_to_older":         30,
+			"fallbacks_to_nothing":       10000,
+			"stored_entry_discarded":     10000,
+			"entries_removed_by_release": 35000,
+			"entries_kept_by_release":    35000,
+			"puts_older_than_present":    50000,
+			"puts_shared_location":       45000,
+			"lookups_probing_further":    150000,
+			"cases_device":               300,
+			"cases_memory":               300,
+			"exhaustive_transitions":     30000,
+			// the enumeration must reach its fixed point in every configuration
+			"quick:exhaustive_configs_closed":    36,
+			"thorough:exhaustive_configs_closed": 576,
 		},
 		Assumptions: []string{
 			"blocks are released oldest-first (BlockList.PopFront is the only release in production)",
@@ -183,7 +187,7 @@ func sizeOf(abs int, off int64) int64 { return 1 + (int64(abs)*31+off*7)%97 }
 
 func randomEngine(w *run.Worker, mr *metricsReader) {
 	st := &stats{m: map[string]int64{}}
-	w.Cases("random", w.N(4000, 120000), func(c *run.Case) {
+	w.Cases("random", w.N(3200, 120000), func(c *run.Case) {
 		// c.Rng is derived from (seed, worker, group, index) by xor-ing small
 		// integers into one word, which makes the case lists of seeds 1, 2 and
 		// 3 permutations of each other; the seed is mixed in once more.
@@ -213,6 +217,17 @@ func randomEngine(w *run.Worker, mr *metricsReader) {
 		default:
 			cfg.putA = 64
 		}
+		// "churn" cases aim at the rarest permitted behaviour, a key falling
+		// back to an OLDER location: long probe sequences, a tiny iteration
+		// budget and mostly allocation-like (increasing) locations, so that a
+		// key has a stale version further along its probe sequence when the
+		// iteration budget runs out on its newest version.
+		churn := r.Chance(15, 100)
+		if churn {
+			cfg.size = r.Range(3, 9)
+			cfg.getA = uint32(r.Range(3, 6))
+			cfg.putA = r.Range(1, 2)
+		}
 		cfg.device = r.Bool()
 		nkeys := r.Range(2, 8)
 		if cfg.size > 13 {
@@ -239,7 +254,7 @@ func randomEngine(w *run.Worker, mr *metricsReader) {
 		cfg.count = r.Range(1, maxBlocks)
 		cfg.epoch = uint32(r.Pick(1, 1, 2, 1000, 0xfff00000))
 		nops := 300
-		c.Desc("%v maxblocks=%d ops=%d collide=%d", cfg, maxBlocks, nops, coll)
+		c.Desc("%v maxblocks=%d ops=%d collide=%d churn=%v", cfg, maxBlocks, nops, coll, churn)
 
 		s := newSUT(cfg)
 		m := newMonitor(c, mr, s, st)
@@ -247,6 +262,9 @@ func randomEngine(w *run.Worker, mr *metricsReader) {
 			st.add("cases_device", 1)
 		} else {
 			st.add("cases_memory", 1)
+		}
+		if churn {
+			st.add("cases_churn", 1)
 		}
 		if initMode == 2 || initMode == 3 {
 			st.add("cases_bruteforced_init", 1)
@@ -284,6 +302,9 @@ func randomEngine(w *run.Worker, mr *metricsReader) {
 				var off int64
 				shared := false
 				mode := r.Intn(10)
+				if churn && r.Chance(2, 3) {
+					mode = 3
+				}
 				if mode < 2 {
 					// Re-store a location that was stored before (under any
 					// key) and is still live: equal locations under different
